@@ -15,7 +15,8 @@ from vlib.sut_c import c_prefix, c_type_name, pascal_prefix
 from props import ccommon, pycommon
 from props.C10 import layout_source
 
-INFRA_C = re.compile(r"^(__BITPROTO__\w*_H__|BITPROTO_OPTIMIZATION_MODE|BpXXX\w+|BpFieldDescriptorsInit\w+)$")
+# infrastructure names (include guard, mode macro, library-style internals: bitproto.h reserves the Bp prefix): only required to exist/compile
+INFRA_C = re.compile(r"^(__BITPROTO__\w*|BITPROTO_\w+|Bp[A-Z]\w*|BP_\w+)$")
 PY_INFRA = {"json", "dataclass", "field", "ClassVar", "Dict", "List", "Union", "IntEnum", "unique", "bp"}
 
 
